@@ -213,6 +213,14 @@ def run(ctx):
                {"kind": "delete", "file": "p2/f2.rego", "pauseMs": 0},
                {"kind": "config", "text": CFG2, "pauseMs": 300}]
         cases.append({"id": len(cases), "op": "lsp.history", "files": files, "events": evs, "_strict": True})
+    # directed: a file stops parsing and is then deleted / renamed away while still broken: nothing (no parse error
+    # either) may stay published for the removed URI
+    for ev in ({"kind": "delete", "file": "p1/f1.rego", "pauseMs": 300},
+               {"kind": "rename", "file": "p1/f1.rego", "to": "p1/g1.rego", "pauseMs": 300}):
+        files = {"p0/f0.rego": content(0, [1], 0), "p1/f1.rego": content(1, [], 0), "p2/f2.rego": content(2, [0], 0),
+                 ".regal/config.yaml": CFG}
+        cases.append({"id": len(cases), "op": "lsp.history", "files": files, "_strict": True,
+                      "events": [{"kind": "change", "file": "p1/f1.rego", "text": content(1, [], 3), "pauseMs": 700}, ev]})
     # directed: plain starts on a workspace that already has a file in the ignored directory (the workspace is linted
     # with the default configuration before the user's config is loaded)
     for rep in range(6 if ctx.quick else 24):
